@@ -172,6 +172,9 @@ def run_unit(unit, repo, scratch, timeout=600, rlimit=None):
         if re.match(r"^E\d{4}", e["message"]) or e["message"].startswith("[E"):
             r.status, r.reason = "undecided", "rustc error in generated unit: " + e["text"][:1500]
             return r
+    if not r.functions and re.search(r"^error", p.stderr, re.M):
+        r.status, r.reason = "undecided", "rustc/verus error before verification in generated unit: " + p.stderr[-1500:]
+        return r
     failed_fns = {f["function"].split("::")[-1] for f in r.functions if not f["success"]}
     declared_probes = set(re.findall(r"fn\s+(probe_[A-Za-z0-9_]+)", text))
     for pr in declared_probes:
